@@ -85,11 +85,27 @@ async def script(loop, ctx):
         def unmarked():
             return [t for t in table if t[0] not in marks]
 
+        # one script in six begins with a fixed scenario: several messages marked, an IMAP session expunges the
+        # lowest marked one, (a few random steps,) QUIT -- the other marked messages, and only they, must go
+        forced = []
+        force_quit = False
+        if k % 6 == 1 and len(table) >= 4:
+            forced = [("pop", "DELE", 1), ("pop", "DELE", 2), ("pop", "DELE", 4), ("imap", "expunge", "lowest-marked")]
+            force_quit = True
+            nsteps = max(nsteps, len(forced) + rnd.choice([0, 0, 2]))
+            counts["forced_marked_then_expunged_then_quit"] += 1
         for step in range(nsteps):
+            f = forced.pop(0) if forced else None
             r = rnd.random()
+            if f:
+                r = 0.0 if f[0] == "imap" else 1.0
             if r < 0.25:
                 # an IMAP session changes INBOX meanwhile
                 kind = rnd.choice(["append", "expunge", "deliver", "advance", "store", "reuse", "reuse", "rename_inbox"])
+                if f:
+                    kind = f[1]
+                elif force_quit and kind in ("rename_inbox", "reuse"):
+                    kind = "store"
                 stats["imap_changes"] += 1
                 log.append("IMAP " + kind)
                 if kind == "append":
@@ -137,6 +153,8 @@ async def script(loop, ctx):
                         live = {c[0] for c in cur}
                         marked_uids = [t[1] for t in table if t[0] in marks and t[1] in live]
                         vu = rnd.choice(marked_uids) if marked_uids and rnd.random() < 0.6 else rnd.choice(cur)[0]
+                        if f and marked_uids:
+                            vu = min(marked_uids)
                         if vu in marked_uids:
                             counts["imap_expunged_a_marked_message"] += 1
                         await a.cmd(f"UID STORE {vu} +FLAGS.SILENT (\\Deleted)")
@@ -146,6 +164,10 @@ async def script(loop, ctx):
             nmax = len(table)
             num = rnd.choice([1, nmax, rnd.randint(1, max(1, nmax)), rnd.randint(1, max(1, nmax)), rnd.randint(1, max(1, nmax)), 0, nmax + 1, -1, 99999]) if nmax else rnd.choice([0, 1])
             cmd = rnd.choice(["STAT", "LIST", "UIDL", "RETR", "RETR", "DELE", "DELE", "RSET", "NOOP", "TOP", "LISTN", "UIDLN", "BOGUS", "CAPA"])
+            if f:
+                cmd, num = f[1], f[2]
+            elif force_quit and cmd == "RSET":
+                cmd = "NOOP"
             if cmd == "STAT":
                 rep = await p.cmd("STAT")
                 m = re.match(r"\+OK (\d+) (\d+)", rep.line if rep else "")
@@ -261,6 +283,8 @@ async def script(loop, ctx):
         if not viols:
             before = await observe_inbox(o)
             ending = rnd.choice(["quit", "quit", "disconnect", "none"])
+            if force_quit:
+                ending = "quit"
             if ending == "quit":
                 rep = await p.cmd("QUIT")
                 if rep is None or not rep.ok:
